@@ -172,9 +172,16 @@ def r1_validate_before_use(ctx):
                                   f"`{U(partial)[:60]}` is evaluated although `{var}` may have the wrong type (the type error is recorded but the check carries on): TypeError / AttributeError instead of LeaspyAlgoInputError")
     # visit_type itself
     f = ix.func(SIM, f"{CLS}._validate_algo_parameters", "C18.R1")
-    src = U(f.node)
-    ctx.check("self._PARAM_REQUIREMENTS.get(self.visit_type)" in src and "if not requirements" in src, "C18.R1", f, f.node, "unknown visit type refused",
-              "an unknown visit type is not refused", construct="unknown visit type")
+    cfg = CFG(f.node)
+    got = [st for st in statements(f.node) if isinstance(st, ast.Assign) and isinstance(st.value, ast.Call) and U(st.value.func) == "self._PARAM_REQUIREMENTS.get" and U(st.value.args[0]) == "self.visit_type"]
+    ok = False
+    if got:
+        var = U(got[0].targets[0])
+        for r in cfg.nodes(lambda s_: isinstance(s_, ast.Raise)):
+            for h, lab in cfg.if_guards(r):
+                if U(cfg.stmt[h].test) in (f"not {var}", f"{var} is None") and lab:
+                    ok = True
+    ctx.check(ok, "C18.R1", f, got[0] if got else f.node, "unknown visit type refused", "an unknown visit type is not refused", construct="unknown visit type")
 
 
 def _under_or(test, node):
@@ -334,4 +341,5 @@ VARIANTS = [
     V("mean-and-std", F, "            if self.param_study[\"distance_visit_mean\"] <= 0:", "            if self.param_study[\"distance_visit_mean\"] <= 0 and self.param_study[\"distance_visit_std\"] <= 0:", "C18.R4"),
     V("keyerror-refusal", F, "raise LeaspyAlgoInputError(\"Features can't be empty\")", "raise ValueError(\"Features can't be empty\")", "C18.R1"),
     V("constructor-draws", F, "        self._validate_algo_parameters()\n\n    def _check_features", "        self._validate_algo_parameters()\n        self._jitter = np.random.normal()\n\n    def _check_features", "C18.R3"),
+    V("silent-rename-requirements", "src/leaspy/algo/simulate/simulate.py", "requirements", "reqs", None, count=8),
 ]
